@@ -59,13 +59,13 @@ FRONT = ["erasurecode", "helpers", "preproc", "postproc", "crc32alt", "be_null",
          "xor_hd_code", "null_code", "gf8", "env"]
 
 BASE_FLAGS = ["--unwinding-assertions", "--pointer-check", "--bounds-check", "--div-by-zero-check",
-              "--signed-overflow-check", "--undefined-shift-check", "--pointer-overflow-check",
+              "--signed-overflow-check", "--undefined-shift-check",
               "--drop-unused-functions", "--max-field-sensitivity-array-size", "200", "--object-bits", "10",
               "--no-malloc-may-fail", "--json-ui", "--verbosity", "4"]
-LIBC_UNWIND = {"strlen.0": 70, "strcpy.0": 70, "strcmp.0": 40, "strdup.0": 70,
+LIBC_UNWIND = {"vin_bytes.0": 130, "vin_bytes.1": 130, "strlen.0": 70, "strcpy.0": 70, "strcmp.0": 40, "strdup.0": 70,
                "liberasurecode_init.0": 12, "liberasurecode_exit.0": 12,
                "rs_galois_init_tables.0": 16, "gf16_mul_u.0": 17, "gf16_inv_u.0": 17,
-               "gf_mul.0": 9, "gf_inv.0": 9, "m16_mul.0": 17, "m16_inv.0": 17, "m8_mul.0": 9, "m8_inv.0": 9}
+               "gf_mul.0": 9, "gf_inv.0": 9, "ec_init_tables.0": 33, "ec_init_tables.1": 33, "ec_init_tables.2": 33, "m16_mul.0": 17, "m16_inv.0": 17, "m8_mul.0": 9, "m8_inv.0": 9}
 
 
 @dataclass
@@ -121,6 +121,26 @@ class Ctx:
         print(*a, flush=True)
 
 
+_children = set()
+_children_lock = threading.Lock()
+
+
+def _kill_children(*a):
+    with _children_lock:
+        for pid in list(_children):
+            try:
+                os.killpg(pid, signal.SIGKILL)
+            except Exception:
+                pass
+    if a:
+        sys.exit(143)
+
+
+signal.signal(signal.SIGTERM, _kill_children)
+signal.signal(signal.SIGINT, _kill_children)
+atexit.register(_kill_children)
+
+
 def run(cmd, timeout=None, mem_gb=None, cwd=None, env=None, capture=True):
     def pre():
         os.setsid()
@@ -130,6 +150,8 @@ def run(cmd, timeout=None, mem_gb=None, cwd=None, env=None, capture=True):
     t0 = time.time()
     p = subprocess.Popen(cmd, stdout=subprocess.PIPE if capture else None, stderr=subprocess.PIPE if capture else None,
                          cwd=cwd, env=env, preexec_fn=pre)
+    with _children_lock:
+        _children.add(p.pid)
     try:
         out, err = p.communicate(timeout=timeout)
         to = False
@@ -140,7 +162,8 @@ def run(cmd, timeout=None, mem_gb=None, cwd=None, env=None, capture=True):
             pass
         out, err = p.communicate()
         to = True
-    ru = resource.getrusage(resource.RUSAGE_CHILDREN)
+    with _children_lock:
+        _children.discard(p.pid)
     return p.returncode, (out or b"").decode("utf-8", "replace"), (err or b"").decode("utf-8", "replace"), to, time.time() - t0
 
 
